@@ -100,7 +100,8 @@ def run(res, prop, tier, seed, work, replay=None):
     total_states = 0
     cmd = ""
     for kind, target, prep, save, load in (("wallet", "w.wlt", "prepare-wallet", "save-wallet", "load-wallet"), ("kv", "client.json", "prepare-kv", "save-kv", "load-kv"),
-                                           ("wallet-newaddr", "w.wlt", "prepare-wallet", "newaddr-wallet", "load-wallet")):
+                                           ("wallet-newaddr", "w.wlt", "prepare-wallet", "newaddr-wallet", "load-wallet"),
+                                           ("wallet-create", "w.wlt", "prepare-none", "create-wallet", "load-wallet-or-none")):
         d = vlib.fresh_dir(os.path.join(work, kind, "live"))
         pre = os.path.join(work, kind, "pre")
         vlib.run([binary, prep, d], timeout=120)
@@ -173,10 +174,10 @@ def run(res, prop, tier, seed, work, replay=None):
     res.coverage.update({
         "evaluations": len(images), "distinct_nontrivial": len({(r["kind"], r["pos"], r["k"]) for r in images}),
         "rule": "one crash image per crash point of the recorded save (after each file-system operation, and 1 byte / half / all-but-one byte into each write), "
-                "for the wallet file (plain save, and the service path that derives a new address), and for the key-value storage file; every image is loaded by the real start-up code; all are distinct and non-trivial",
+                "for the wallet file (plain save, the service path that derives a new address, and the very first save of a new wallet), and for the key-value storage file; every image is loaded by the real start-up code; all are distinct and non-trivial",
         "exhaustive": True, "tlc_states_over_recorded_programs": total_states, "samples": samples,
         "images_by_outcome": {k: sum(1 for r in images if (r["ok"], r["content"]) == k2) for k, k2 in (("old", (True, "old")), ("new", (True, "new")))},
-        "traces_validated_against_impl": 3, "checker_cmd": cmd,
+        "traces_validated_against_impl": 4, "checker_cmd": cmd,
     })
     res.assumptions += ["a crash is a process stop: data handed to write() reaches the file, no torn sectors, no lost renames (power failure is outside the statement)",
                         "strace sees every file operation of the save (the Go runtime uses openat/write/renameat/unlinkat)",
